@@ -278,6 +278,80 @@ func runC19(cx *Ctx, r *Report) {
 		}
 		r.check(okRet, "id-is-key", "0x01", cx.P.Pos(p.Site.Pos()), "the function returns the very id the stored key was built from", "the id returned by "+shortFn(f)+" is not the value used to build the stored key")
 	}
+	// ---------------- the counter never goes back: every run-time write of 0x02 (outside
+	// genesis import) stores counter+1. A reset (per block, per tx) lets hash(record ||
+	// counter) repeat for a byte-identical record, and the later creation then lands on
+	// the earlier record's key.
+	{
+		writesCtr := func(g *ssa.Function) bool {
+			if g == nil || g.Blocks == nil {
+				return false
+			}
+			for _, pp := range cx.primsOf(g) {
+				if pp.Kind == "store.set" && len(pp.Prefix) == 1 && pp.Prefix[0] == recCtr {
+					return true
+				}
+			}
+			return false
+		}
+		readsCtr := func(v ssa.Value) bool {
+			c, ok := v.(*ssa.Call)
+			if !ok {
+				return false
+			}
+			for _, e := range cx.calleesOf(c) {
+				if e.Callee.Blocks == nil {
+					continue
+				}
+				for _, pp := range cx.primsOf(e.Callee) {
+					if pp.Kind == "store.get" && len(pp.Prefix) == 1 && pp.Prefix[0] == recCtr {
+						return true
+					}
+				}
+			}
+			return false
+		}
+		genesisFns := cx.Reachable(cx.entryFns(cx.entriesOfModule("record", "genesis")), nil)
+		nW := 0
+		for _, f := range cx.P.AllFuncs {
+			if f.Blocks == nil || !isConsensusCode(cx, f) || writesCtr(f) {
+				continue // the setter itself stores its argument
+			}
+			for _, b := range f.Blocks {
+				for _, ins := range b.Instrs {
+					c, ok := ins.(*ssa.Call)
+					if !ok {
+						continue
+					}
+					hit := false
+					for _, e := range cx.calleesOf(c) {
+						if writesCtr(e.Callee) {
+							hit = true
+						}
+					}
+					if !hit {
+						continue
+					}
+					if genesisFns.Has(f) && f.Name() == "InitGenesis" {
+						continue // import restores the exported value
+					}
+					nW++
+					inc := false
+					for _, a := range c.Common().Args {
+						if bo, ok := a.(*ssa.BinOp); ok && bo.Op.String() == "+" {
+							if cst, ok := bo.Y.(*ssa.Const); ok && cst.Value != nil && cst.Int64() == 1 && readsCtr(bo.X) {
+								inc = true
+							}
+						}
+					}
+					r.check(inc, "counter-monotone", shortFn(f), cx.P.Pos(c.Pos()), "the counter is written as (value read from 0x02) + 1", "the id counter under 0x02 is written in "+shortFn(f)+" with a value that is not counter+1 (a reset or an arbitrary value): the counter can repeat, and a byte-identical record then gets the id of an existing record and overwrites it")
+				}
+			}
+		}
+		if nW < 1 {
+			r.toolErr("no run-time write of the record counter found (AddRecord confirmed)")
+		}
+	}
 	// message surface
 	entries := cx.entriesOfModule("record", "msg")
 	r.check(len(entries) == 1 && entries[0].Name == "CreateRecord", "msg-surface", "record", "", "the record Msg service has the single rpc CreateRecord", fmt.Sprintf("record Msg service has %d rpcs (expected only CreateRecord): a new rpc needs review against immutability", len(entries)))
